@@ -46,7 +46,7 @@ def run(tier, seed, replay=None):
                                           c["id"], o["dir"], c["file"], c["op"], o["base"], "\n# ".join(diffs[:5])))
                     break
             k2 = opk == "xor" and c["op"].endswith(D.KERNEL) and any("PANIC" in l for l in c["debug"]["lines"])   # known finding K2 (C06)
-            if not k2 and not D.model_agrees(c["debug"]["lines"], c["model"]):
+            if not k2 and not o["base"].get("nomodel") and not D.model_agrees(c["debug"]["lines"], c["model"]):
                 dis += 1
                 if dis <= 3:
                     res.violation("model/implementation correspondence broken on damaged file (%s %s of base %s): the reader model no longer describes what the reader reports" % (c["file"], c["op"], bid),
